@@ -1406,33 +1406,49 @@ class UTPM(Ring, RawAlgorithmsMixIn):
     def __neg__(self):
         return self.__class__.neg(self)
 
+    def _zeroth_coefficients(self, other):
+        """zeroth coefficients of two UTPM instances, aligned for broadcasting:
+        the direction axis comes first, so the operand of lower rank gets
+        its new axes after it"""
+        x0, y0 = self.data[0,...], other.data[0,...]
+        if x0.ndim < y0.ndim:
+            x0 = x0.reshape(x0.shape[:1] + (1,)*(y0.ndim - x0.ndim) + x0.shape[1:])
+        elif y0.ndim < x0.ndim:
+            y0 = y0.reshape(y0.shape[:1] + (1,)*(x0.ndim - y0.ndim) + y0.shape[1:])
+        return x0, y0
+
     def __lt__(self, other):
         if isinstance(other,self.__class__):
-            return numpy.all(self.data[0,...] < other.data[0,...])
+            x0, y0 = self._zeroth_coefficients(other)
+            return numpy.all(x0 < y0)
         else:
             return numpy.all(self.data[0,...] < other)
 
     def __le__(self, other):
         if isinstance(other,self.__class__):
-            return numpy.all(self.data[0,...] <= other.data[0,...])
+            x0, y0 = self._zeroth_coefficients(other)
+            return numpy.all(x0 <= y0)
         else:
             return numpy.all(self.data[0,...] <= other)
 
     def __gt__(self, other):
         if isinstance(other,self.__class__):
-            return numpy.all(self.data[0,...] > other.data[0,...])
+            x0, y0 = self._zeroth_coefficients(other)
+            return numpy.all(x0 > y0)
         else:
             return numpy.all(self.data[0,...] > other)
 
     def __ge__(self, other):
         if isinstance(other,self.__class__):
-            return numpy.all(self.data[0,...] >= other.data[0,...])
+            x0, y0 = self._zeroth_coefficients(other)
+            return numpy.all(x0 >= y0)
         else:
             return numpy.all(self.data[0,...] >= other)
 
     def __eq__(self, other):
         if isinstance(other,self.__class__):
-            return numpy.all(self.data[0,...] == other.data[0,...])
+            x0, y0 = self._zeroth_coefficients(other)
+            return numpy.all(x0 == y0)
         else:
             return numpy.all(self.data[0,...] == other)
 
